@@ -329,11 +329,14 @@ class LocationTable:
             int(TimeService.time() * 1000))
         lifetime_ms = self.mib.itsGnLifetimeLocTE * 1000
         with self.loc_t_lock:
+            # An entry created for a pending location-service lookup has no position
+            # vector yet and lives until the lookup completes or gives up.
             # A position timestamp ahead of the local clock (sender clock skew, sub-second
             # timestamps) has age zero; it must not wrap around into a huge unsigned age.
             self.loc_t = {
                 gn: entry for gn, entry in self.loc_t.items()
-                if entry.position_vector.tst > current_time
+                if entry.ls_pending
+                or entry.position_vector.tst > current_time
                 or (current_time - entry.position_vector.tst) <= lifetime_ms
             }
 
